@@ -302,6 +302,9 @@ def processK (b : KBlock) : IO (Nat × Nat × Nat) := do   -- (experiments, diff
       let preV := Judge.viewOfObs pre
       let settledPre := match cfg? with | some c => preV.release == some c.version | none => true
       let offers := offersOf ops
+      let verified : Nat → List Bytes := fun k => match cfg? with
+        | some c => verifiedContents c (w0.base c) preV settledPre ops k
+        | none => []
       let mut n := 0
       let mut diffs := 0
       let mut jf := 0
@@ -328,7 +331,8 @@ def processK (b : KBlock) : IO (Nat × Nat × Nat) := do   -- (experiments, diff
             -- `up=1`: the launch after the death is one of another release (`crash_then_other_release`): it selects nothing
             let checks : Checks :=
               if (hdf.lookup "up") == some "1" then upgradeChecks sel
-              else crashChecks env key preV (Judge.viewOfObs xo) offers settledPre inProg (Judge.viewOfObs ro) sel
+              else crashChecks env key preV (Judge.viewOfObs xo) offers settledPre inProg (Judge.viewOfObs ro) sel ++
+                   contentChecks verified (Judge.viewOfObs ro) sel
             match firstFail checks with
             | some why =>
               IO.println s!"J C04 {b.id} step=0 side=impl {hd} {why}"
@@ -346,6 +350,8 @@ def processK (b : KBlock) : IO (Nat × Nat × Nat) := do   -- (experiments, diff
             let ver := cfg?.map (·.version)
             match firstFail (eioChecks env key preV offers settledPre (Judge.viewOfObs io) (selOf io) ++
                              eioChecks env key preV offers settledPre (Judge.viewOfObs ro) (selOf ro) ++
+                             contentChecks verified (Judge.viewOfObs io) (selOf io) ++
+                             contentChecks verified (Judge.viewOfObs ro) (selOf ro) ++
                              eioRecordChecks ver preV offers settledPre (Judge.viewOfObs xo) ++
                              eioRecordChecks ver preV offers settledPre (Judge.viewOfObs ro)) with
             | some why =>
